@@ -510,6 +510,8 @@ def check_c15(world):
     # a password containing '!name=' collides with the '!' option grammar of source / output strings: the class itself
     # tears such a URI apart (part of the password becomes an option value), which no URI mask can recognise afterwards
     pw_opt_like = bool(_RE_OPT_LIKE.search(info['toka'] + info['specials'] + info['tokb']))
+    # likewise ';' (topic separator) and ',' (list separator) inside the password collide with the source / output grammar
+    pw_delim = ';' if ';' in info['specials'] else ',' if ',' in info['specials'] else None
     found = {}
     x_life = [e[5] for e in world.events if e[0] == 'life' and e[3] == SUBJECT]
     ctor_ran = 'ctor_enter' in x_life
@@ -520,7 +522,8 @@ def check_c15(world):
     stats['c15_setup_done'] += int('setup_exit' in x_life)
 
     def add(oracle, sink, site, message, step, now, **extra):
-        sig = dict(cls=cls, sink=sink, place=place, site=site, empty_user=empty_user, pw_opt_like=pw_opt_like, **extra)
+        sig = dict(cls=cls, sink=sink, place=place, site=site, empty_user=empty_user, pw_opt_like=pw_opt_like,
+                   pw_delim=pw_delim, **extra)
         k = (oracle, json.dumps(sig, sort_keys=True))
         if k not in found:
             found[k] = V('C15', oracle, message, step, now, **sig)
